@@ -65,17 +65,22 @@ func Coeff(n, k int) int {
 }
 
 //Coeffs calculates all binomial coefficeints m choose k for 0 <= m <= n and k <= m/2.
+//Coeffs panics if one of the coefficients would overflow an int.
 func Coeffs(n int) [][]int {
 	coeffs := make([][]int, n+1)
+	var overflow bool
 	for i := 0; i <= n; i++ {
 		tmp := make([]int, i/2+1)
 		tmp[0] = 1
 		for j := 1; j < i/2+1; j++ {
 			if 2*j == i {
-				tmp[j] = 2 * coeffs[i-1][j-1]
-				continue
+				tmp[j], overflow = addHasOverflowed(coeffs[i-1][j-1], coeffs[i-1][j-1])
+			} else {
+				tmp[j], overflow = addHasOverflowed(coeffs[i-1][j-1], coeffs[i-1][j])
 			}
-			tmp[j] = coeffs[i-1][j-1] + coeffs[i-1][j]
+			if overflow {
+				panic("coefficient overflows int")
+			}
 		}
 		coeffs[i] = tmp
 	}
